@@ -456,7 +456,8 @@ def _check_fragment(world, ev, before, rec, after, eff, model, out):
 
 
 def _worker(args):
-    seed, length, mode, monitor_names, exe, do_corr, cfg_override, max_prs, admin_jobs, replay_history, fault_spec = args
+    seed, length, mode, monitor_names, exe, do_corr, cfg_override, max_prs, admin_jobs, replay_history, fault_spec = args[:11]
+    qm_mod = args[11] if len(args) > 11 else 8
     from . import faults as faults_mod
     os.environ['PYTHONHASHSEED'] = '0'
     from . import histories, monitors
@@ -513,7 +514,7 @@ def _worker(args):
         else:
             spec = dict(fault_spec, seed=seed) if fault_spec else None
             ff = faults_mod.build(spec)
-            if seed % 8 == 1 and mode in ('queue', 'skip', None):
+            if seed % qm_mod == 1 and mode in ('queue', 'skip', None):
                 h, _log = histories.queue_matrix_and_run(seed, on_job=on_job, mode=mode, cfg_override=cfg_override,
                                                          fault_for=ff)
             elif seed % 8 == 5:
@@ -544,7 +545,7 @@ def _worker(args):
 
 
 def run(ctx, seeds, length, monitor_names, mode=None, do_corr=True, cfg_override=None, max_prs=3,
-        admin_jobs=True, replay_history=None, workers=16, what='', fault_spec=None, model_exe=None):
+        admin_jobs=True, replay_history=None, workers=16, what='', fault_spec=None, model_exe=None, qm_mod=8):
     """Run the histories; fill ctx (evaluations, violations, mismatches, samples, histogram).
     do_corr: True = every trace check (needs the git/flow binary), 'pipeline' = only the handler skeletons
     (Model/Pipeline.v; any binary that answers `pipe` requests, given as model_exe), False = monitors only."""
@@ -557,7 +558,7 @@ def run(ctx, seeds, length, monitor_names, mode=None, do_corr=True, cfg_override
                  None)]
     else:
         jobs = [(s, length, mode if not isinstance(mode, (list, tuple)) else mode[i % len(mode)], monitor_names,
-                 exe, do_corr, cfg_override, max_prs, admin_jobs, None, fault_spec) for i, s in enumerate(seeds)]
+                 exe, do_corr, cfg_override, max_prs, admin_jobs, None, fault_spec, qm_mod) for i, s in enumerate(seeds)]
     mp = get_context('fork')
     with mp.Pool(min(workers, max(1, len(jobs)))) as pool:
         results = pool.map(_worker, jobs, chunksize=1)
